@@ -18,6 +18,11 @@ import (
 
 var c13Alphabet = []string{"@", "^", "[", "]", "{", "}", "\"", ":", ",", "-", "+", "1", "a", " ", "\n"}
 
+// c13YamlTokens: YAML constructs as atomic symbols (non-finite floats, anchors and aliases, tags, explicit keys, block
+// scalar and document markers, merge keys, numbers in other bases or beyond int64 / float64), for the YAML reader only.
+var c13YamlTokens = []string{".inf", "-.inf", ".nan", "~", "&x ", "*x", "!!str ", "!!float ", "!!binary ", "!!int ", "? ", ": ", "- ", "|", ">", "#", "---\n", "a", "1", "0x1F", "1e400", "18446744073709551615",
+	"\n", "  ", "[", "]", "{", "}", ",", "<<", "'", "\""}
+
 var c13Readers = []string{"diff", "patch", "merge", "json", "yaml"}
 
 var c13Lines = []string{`^ {"Merge":true}`, `@ ["a"]`, `@ [0]`, `@ [1]`, `@ [{}]`, `@ [[]]`, `@ [{"id":1},"v"]`, `@ []`, `[`, `]`, `  1`, `- 1`, `+ 1`, `+`, ``, `- [1]`, `+ {"a":1}`}
@@ -364,6 +369,16 @@ func enumC13(tier string, e *engine.Emitter) {
 			}
 		})
 	}
+	yl := 4
+	if thorough {
+		yl = 5
+	}
+	hky := engine.HS("c13r:yaml-tokens")
+	allStrings(c13YamlTokens, yl, func(s string) {
+		if e.Mine(engine.HashParts(hky, engine.HS(s), engine.HS(""), engine.HS(""), engine.HS(""))) {
+			e.Do(engine.Case{Kind: "c13r:yaml", Leg: "reader/yaml-tokens", A: s})
+		}
+	})
 	// (iv) corrupted valid diffs
 	depth := 1
 	if thorough {
@@ -456,6 +471,14 @@ func runC13(c *engine.Case) engine.Result {
 				if err == nil {
 					_ = n.Json()
 					_ = n.Yaml()
+					one, _ := jd.ReadJsonString(`{"a":[1]}`)
+					_ = n.Equals(one)
+					d := one.Diff(n)
+					_ = d.Render()
+					d.RenderPatch()
+					one.Patch(d)
+					one.Diff(n, jd.MERGE).RenderMerge()
+					n.Diff(one, jd.SET).Render()
 				}
 			}
 		})
@@ -682,7 +705,7 @@ func c13CLICases() []engine.Case {
 			}
 			out = append(out, engine.Case{Kind: "c13cli:" + bin, Leg: "cli/" + bin, A: m, X: "-t merge2jd"})
 		}
-		for _, bad := range []string{"{", "[1,", "\x00", "a: [", "- - -", "{\"a\":1}}", "\"\\u12\""} {
+		for _, bad := range []string{"{", "[1,", "\x00", "a: [", "- - -", "{\"a\":1}}", "\"\\u12\"", ".inf", "a: -.inf", "- .nan", "a: [1, .NaN]", "a: 18446744073709551615", "1: a", "? [1]\n: 2", "a: &x [*x]", "a: !!binary x", "a: !!float x", "a: 1e400"} {
 			out = append(out, engine.Case{Kind: "c13cli:" + bin, Leg: "cli/" + bin, A: bad, B: `[1]`, X: "diff"})
 			out = append(out, engine.Case{Kind: "c13cli:" + bin, Leg: "cli/" + bin, A: bad, B: `[1]`, X: "diff -yaml"})
 			out = append(out, engine.Case{Kind: "c13cli:" + bin, Leg: "cli/" + bin, A: bad, X: "-t json2yaml"})
